@@ -225,7 +225,9 @@ class WritableVersion(dns.zone.WritableVersion):
         if self.zone.relativize:
             return name == dns.name.empty
         else:
-            return name == self.zone.origin
+            # Use the version's origin: the zone's origin is still None while
+            # the first transaction is learning it (e.g. from $ORIGIN).
+            return name == self.origin
 
     def _maybe_cow_with_name(
         self, name: dns.name.Name
